@@ -157,12 +157,12 @@ func interop(id uint8, nameLen int, suites []ech.CipherSuite, viaNewConfig bool)
 	errc := make(chan error, 1)
 	go func() {
 		srv := tls.Server(sEnd, &tls.Config{Certificates: []tls.Certificate{srvCert}, EncryptedClientHelloKeys: []tls.EncryptedClientHelloKey{{Config: cfg, PrivateKey: privBytes}}})
-		srv.SetDeadline(time.Now().Add(5 * time.Second))
+		srv.SetDeadline(time.Now().Add(watchdogLimit()))
 		errc <- srv.Handshake()
 		srv.Close()
 	}()
 	cl := tls.Client(cEnd, &tls.Config{ServerName: "inner.example", RootCAs: p.pool, EncryptedClientHelloConfigList: list})
-	cl.SetDeadline(time.Now().Add(5 * time.Second))
+	cl.SetDeadline(time.Now().Add(watchdogLimit()))
 	herr := cl.Handshake()
 	acc := cl.ConnectionState().ECHAccepted
 	cl.Close()
